@@ -22,7 +22,7 @@ from .models import BOOT, FAMILIES
 STAGES = ["scaler", "renamer", "preconverter", "stacker", "postconverter", "sanitizer"]
 
 INVARIANTS = [
-    "TypeOK", "C14_RefitIsFresh", "C14_AnswersFromLastFit", "C14_ModelUsableAfterRotFit",
+    "TypeOK", "C14_RefitIsFresh", "C14_AgedEqualsFresh", "C14_AnswersFromLastFit", "C14_ModelUsableAfterRotFit",
     "C05_TransformLabelsFromArgument", "C04_TrainingTransformIsScores", "C11_SortedExactlyOnce",
     "C11_TransformOrderMatchesStore", "C18_EagerResultsAreSorted", "C12_LazyFitComputesNothing",
     "C12_DeferredResultsStayLazy", "C12_ComputeMakesEager", "C12_InputNeverMaterialised", "C20_SameSeedSameResample",
@@ -51,7 +51,7 @@ def cfg_lines(cap, eager, daskin, checknans, dev=None, datasets="DS3", nitems="N
 
 
 def explore(cap, eager, daskin, checknans, **kw):
-    name = f"life_{cap}_{int(eager)}{int(daskin)}{int(checknans)}" + ("_rs" if kw.get("rotsnaps") else "")
+    name = f"life_{cap}_{int(eager)}{int(daskin)}{int(checknans)}" + ("_rs" if kw.get("rotsnaps") else "") + (f"_{kw['datasets']}" if kw.get("datasets") else "")
     res = tlc.run("MC_XLifecycle", cfg_lines(cap, eager, daskin, checknans, emit=True, **kw), name=name, workers=4, cache=True)
     return res
 
